@@ -24,6 +24,7 @@ type LoggedRequest struct {
 	Operation  string                 `json:"operation"` // query | mutation | subscription | invalid
 	RootFields []string               `json:"root_fields"`
 	Invalid    string                 `json:"invalid,omitempty"` // why the service's own schema rejects it
+	Answer     map[string]interface{} `json:"-"`                 // what the service answered (data)
 }
 
 // Fault tells a service to misbehave on a given call / position.
@@ -43,6 +44,8 @@ type Service struct {
 	Log    []LoggedRequest
 	Calls  int
 	Faults []Fault
+	// FaultsApplied counts faults that really changed an answer
+	FaultsApplied int
 }
 
 func NewService(url string, schema *ast.Schema, store *Store) *Service {
@@ -55,6 +58,7 @@ func (s *Service) Reset() {
 	s.mu.Lock()
 	s.Log = nil
 	s.Calls = 0
+	s.FaultsApplied = 0
 	s.mu.Unlock()
 }
 
@@ -159,12 +163,14 @@ func (s *Service) Query(inputs []*requests.Request) ([]map[string]interface{}, e
 			s.Log = append(s.Log, lr)
 			s.mu.Unlock()
 		}
+		s.FaultsApplied++
 		return nil, errors.New("transport error talking to " + s.Addr)
 	}
 	out := make([]map[string]interface{}, 0, len(inputs))
 	var firstErr error
 	for i, in := range inputs {
 		data, errs, lr := s.Answer(in, call)
+		lr.Answer = jsonCopy(data)
 		s.mu.Lock()
 		s.Log = append(s.Log, lr)
 		s.mu.Unlock()
@@ -172,13 +178,34 @@ func (s *Service) Query(inputs []*requests.Request) ([]map[string]interface{}, e
 		case "errors":
 			errs = gqlerrors.ErrorList{{Message: "injected failure", Path: []interface{}{"x", 1}, Extensions: map[string]interface{}{"code": "INJECTED", "n": float64(i)}}}
 			data = nil
+			s.FaultsApplied++
 		case "nulldata":
+			// what the real MultiOpQueryer makes of an element without data and errors (fix 8df4d50)
 			data = nil
+			errs = gqlerrors.ErrorList{{Message: "response from " + s.Addr + " contains neither data nor errors"}}
+			s.FaultsApplied++
 		case "nonode":
-			delete(data, "node")
+			if _, ok := data["node"]; ok {
+				delete(data, "node")
+				s.FaultsApplied++
+			}
 		case "node_not_map":
 			if _, ok := data["node"]; ok {
 				data["node"] = "oops"
+				s.FaultsApplied++
+			}
+		case "wrong_shape":
+			// values whose shape contradicts the schema: objects become strings, lists become objects
+			for k, v := range data {
+				switch v.(type) {
+				case map[string]interface{}:
+					data[k] = "not-an-object"
+				case []interface{}:
+					data[k] = map[string]interface{}{"unexpected": "object"}
+				default:
+					data[k] = []interface{}{"unexpected", "list"}
+				}
+				break
 			}
 		}
 		if len(errs) > 0 && firstErr == nil {
@@ -191,9 +218,11 @@ func (s *Service) Query(inputs []*requests.Request) ([]map[string]interface{}, e
 	}
 	if s.callFault(call, "short") && len(out) > 0 {
 		out = out[:len(out)-1]
+		s.FaultsApplied++
 	}
 	if s.callFault(call, "long") {
 		out = append(out, map[string]interface{}{"extra": true})
+		s.FaultsApplied++
 	}
 	return out, nil
 }
